@@ -95,6 +95,7 @@ type enc struct {
 	entryAt         int
 	lastModel       map[string]string
 	usedSpecs       map[string]bool
+	fnConsts        []string
 	dropAssert      map[int]bool
 	allocSites      []string // one constant per allocation site: different sites never yield the same object
 	siteOrd         map[ssa.Instruction]int
@@ -568,10 +569,8 @@ func (e *enc) val(v ssa.Value) string {
 		e.locs[v] = l
 		return n
 	case *ssa.Function:
-		n := "fn_" + sname(funcKey(c))
-		e.decl(n, "Ref")
+		n := e.fnConst(funcKey(c))
 		e.names[v] = n
-		e.assume(fmt.Sprintf("(> %s 0)", n))
 		return n
 	case *ssa.Builtin:
 		return "0"
@@ -819,6 +818,21 @@ func (e *enc) now(st hstate) string {
 
 // allocFacts: whatever a value in scope refers to was allocated before now (not for values the
 // instruction itself allocates).
+// fnConst: the constant standing for a declared function used as a value. Different functions are
+// different values.
+func (e *enc) fnConst(key string) string {
+	n := "fn_" + sname(key)
+	if !e.declared[n] {
+		e.decl(n, "Ref")
+		e.assume(fmt.Sprintf("(> %s 0)", n))
+		for _, o := range e.fnConsts {
+			e.assume(fmt.Sprintf("(not (= %s %s))", n, o))
+		}
+		e.fnConsts = append(e.fnConsts, n)
+	}
+	return n
+}
+
 func (e *enc) allocFacts(n string, t types.Type) {
 	if tt, ok := t.(*types.Tuple); ok {
 		for k := 0; k < tt.Len(); k++ {
